@@ -29,7 +29,14 @@ def gen_selections(rng, depth, frag_names, varnames, budget, pdir=0.25):
         budget[0] -= 1
         r = rng.random()
         if r < 0.15 and frag_names:
-            parts.append("...%s%s" % (rng.choice(frag_names), gen_directives(rng, varnames, pdir)))
+            fn = rng.choice(frag_names)
+            parts.append("...%s%s" % (fn, gen_directives(rng, varnames, max(pdir, 0.5))))
+            if rng.random() < 0.4:
+                # the same fragment spread again in the same scope (seen-set handling),
+                # possibly after another selection, with independent directives
+                if rng.random() < 0.5:
+                    parts.append(rng.choice(FIELDS))
+                parts.append("...%s%s" % (fn, gen_directives(rng, varnames, max(pdir, 0.5))))
         elif r < 0.30 and depth > 0:
             tc = rng.choice(["", " on T", " on U"])
             parts.append("...%s%s { %s }" % (
